@@ -5,11 +5,11 @@ PROP = "C10"
 
 
 def spec():
-    return e2e.specs_for(["faults"])
+    return e2e.specs_for(["faults", "btfaults"])
 
 
 def run(tier, seed):
-    return e2eprop.run(PROP, ["faults"], tier, seed, ["faults_scenarios"], ["faults_sigs"],
+    return e2eprop.run(PROP, ["faults", "btfaults"], tier, seed, ["faults_scenarios"], ["faults_sigs"],
                        "one evaluation = one history in mode S (2 threads, 2 loggers x 3 recording sinks). Scenarios 0..257 of every process ENUMERATE, for a "
                        "history of 12 statements, every (position, fault kind) with kinds {argument missing, spec/type mismatch, user formatter throwing "
                        "std::runtime_error / a non-std type / an int, LOG_BACKTRACE without init_backtrace, harmless user type, the named-placeholder forms of these} and every (sink, call index "
@@ -17,8 +17,12 @@ def run(tier, seed):
                        "faults plus a sink fault. Offline: every non-faulty statement on every sink of its logger once and in order; a faulty one absent or "
                        "present with the explanatory text; a sink throw may cost exactly one statement, only on that sink and the sinks after it; >= 1 "
                        "notifier message per fault; flush_log() afterwards returns, every OTHER sink has a completed flush after its last write at that moment, and a probe statement is processed (idle-cycle / no-progress verdicts). "
+                       "Family btfaults (mode S, one logger over three sinks in three attachment orders, exact backtrace ring model, capacities 1-5): the throwing "
+                       "(sink, write-call index 0..25) is enumerated over every write of a history of stores, ordinary statements, flush_backtrace() and flush-level "
+                       "triggers, so the throw lands on a trigger statement, on every position of a replay and on plain statements; sinks before the throwing one must show "
+                       "exactly the model's sequence, the throwing one the sequence minus that one statement, the ones after it either. "
                        "distinct = enumerated fault positions + sampled schedule signatures",
-                       ["statements are single-line; a sink throw is never scheduled inside a backtrace replay"],
+                       ["statements are single-line"],
                        level="fault_enumeration")
 
 
